@@ -110,6 +110,33 @@ def audit(modules):
     return [t for _m, t in thms], ok, problems, dt
 
 
+def barril_closure(modules):
+    """The Barril.* modules imported (transitively) by the given modules."""
+    seen, todo = [], list(modules)
+    while todo:
+        m = todo.pop()
+        if m in seen or not m.startswith("Barril."):
+            continue
+        path = os.path.join(LEAN_DIR, m.replace(".", "/") + ".lean")
+        if not os.path.exists(path):
+            continue
+        seen.append(m)
+        with open(path, encoding="utf8") as f:
+            for line in f:
+                mm = re.match(r"\s*import\s+(Barril\.\S+)", line)
+                if mm:
+                    todo.append(mm.group(1))
+    return sorted(seen)
+
+
+def leanchecker(modules):
+    """Independent re-check of the compiled property, lemma and table-theorem modules (thorough tier)."""
+    mods = [m for m in barril_closure(modules)
+            if m.startswith(("Barril.Props.", "Barril.Proofs.", "Barril.Gen.Thm"))]
+    rc, out, err, dt = run(["lake", "env", "leanchecker"] + mods, timeout=3000)
+    return rc == 0, (out + err)[-600:], len(mods), dt
+
+
 def run_driver(exe, lines, timeout=3000):
     path = os.path.join(LEAN_DIR, ".lake", "build", "bin", exe)
     if not os.path.exists(path):
@@ -171,6 +198,7 @@ def check(pid, tier, seed):
     load_barril()
     import translate
 
+    lc_info = None
     breaks = []  # (kind, detail) : proof obligations / correspondences that no longer check
     candidates = []  # cases the failing-input search should try first
     with Lock():
@@ -201,6 +229,11 @@ def check(pid, tier, seed):
         else:
             for m in prop.LEAN_MODULES:
                 obligations += theorems_of(m)
+        if ok and tier == "thorough":
+            lc_ok, lc_log, lc_n, lc_dt = leanchecker(list(prop.LEAN_MODULES))
+            lc_info = dict(modules=lc_n, ok=lc_ok, seconds=round(lc_dt, 1))
+            if not lc_ok:
+                breaks.append(("audit", "leanchecker rejects the compiled modules: " + lc_log))
         hits = grep_forbidden()
         for h in hits:
             breaks.append(("audit", "forbidden token: " + h))
@@ -326,7 +359,7 @@ def check(pid, tier, seed):
         correspondence=dict(agree=stats["agree"], disagree=stats["disagree"], op_kinds=stats["kinds"],
                             impl_error_kinds=stats["errors"]),
         generated_files_changed=len(changed), build_s=round(bdt, 1), audit_s=round(adt, 1), driver_s=round(ddt, 1),
-        known_findings_reproduced=len(known_lines), notes=ctx.notes,
+        known_findings_reproduced=len(known_lines), notes=ctx.notes, leanchecker=lc_info,
         exhaustive=bool(getattr(prop, "EXHAUSTIVE", {}).get(tier, False)),
     )
     write_evidence(pid, tier, seed, coverage, time.time() - t0, violations,
